@@ -1777,11 +1777,20 @@ class _Linear(ast.NodeTransformer):
         if not all(is_pure(t) for _, t in terms):
             return node
         pos, neg, const = _split_const(terms)
+        op = node.ops[0]
+        # the quantities compared with +-1 here are integers (sizes, counts, handle numbers): x <= y - 1 is x < y
+        if (pos or neg) and isinstance(op, ast.LtE) and const == 1:
+            op, const = ast.Lt(), 0
+        elif (pos or neg) and isinstance(op, ast.GtE) and const == -1:
+            op, const = ast.Gt(), 0
+        elif (pos or neg) and isinstance(op, ast.Lt) and const == -1:
+            op, const = ast.LtE(), 0
+        elif (pos or neg) and isinstance(op, ast.Gt) and const == 1:
+            op, const = ast.GtE(), 0
         left = _lin_build(pos, [], const if const > 0 else 0)
         right = _lin_build(neg, [], -const if const < 0 else 0)
         if left is None or right is None:
             return node
-        op = node.ops[0]
         if ast.unparse(left) > ast.unparse(right) and not (isinstance(right, ast.Constant) and not isinstance(left, ast.Constant)):
             left, right, op = right, left, self.FLIP[type(op)]()
         elif isinstance(left, ast.Constant) and not isinstance(right, ast.Constant):
